@@ -32,19 +32,27 @@ type Log = Arc<Mutex<Vec<String>>>;
 struct Probe {
   k: usize,
   log: Log,
+  /// event `subfin`: an observer that reports finished from the start (and logs nothing)
+  fin: bool,
 }
 impl Observer<Val, i64> for Probe {
   fn next(&mut self, v: Val) {
-    self.log.lock().unwrap().push(format!("{}:{}", self.k, Notif::Next(v)));
+    if !self.fin {
+      self.log.lock().unwrap().push(format!("{}:{}", self.k, Notif::Next(v)));
+    }
   }
   fn error(self, e: i64) {
-    self.log.lock().unwrap().push(format!("{}:{}", self.k, Notif::Error(e)));
+    if !self.fin {
+      self.log.lock().unwrap().push(format!("{}:{}", self.k, Notif::Error(e)));
+    }
   }
   fn complete(self) {
-    self.log.lock().unwrap().push(format!("{}:{}", self.k, Notif::Complete));
+    if !self.fin {
+      self.log.lock().unwrap().push(format!("{}:{}", self.k, Notif::Complete));
+    }
   }
   fn is_finished(&self) -> bool {
-    false
+    self.fin
   }
 }
 
@@ -108,9 +116,9 @@ macro_rules! impl_share_run {
       for (k, ev) in case.events.iter().enumerate() {
         out.cur = k;
         match ev[0].atom() {
-          "sub" => {
+          "sub" | "subfin" => {
             let i = ev[1].nat();
-            let probe = Probe { k: i, log: log.clone() };
+            let probe = Probe { k: i, log: log.clone(), fin: ev[0].atom() == "subfin" };
             let h: Box<dyn FnOnce()> = if let Some(s) = &shared {
               let u = s.clone().actual_subscribe(probe);
               Box::new(move || u.unsubscribe())
